@@ -87,7 +87,7 @@ def run_case(case, ctx):
         ev.update(both(text, p["name"], bbs))
         return ev
     if case["op"] == "writer":
-        c = build(case["c"])
+        c = build(case["c"], case.get("ord"))
         if any(t == "x" for t in case["c"]["ty"]):
             return []
         bbs = list({id(b): b for b in c.blackboxes.values()}.values())
